@@ -17,7 +17,8 @@ use vq_util::Rng;
 /// An attacker living inside the network: called for every genuine datagram (after its
 /// fate was decided) and may ask for extra datagrams to be injected.
 pub trait Injector: Send {
-    fn on_datagram(&mut self, w: &Wire, fate: &Fate, rng: &mut Rng, out: &mut Vec<Inject>);
+    /// `established`: every connection of the scenario has a confirmed handshake on both sides
+    fn on_datagram(&mut self, w: &Wire, fate: &Fate, established: bool, rng: &mut Rng, out: &mut Vec<Inject>);
 }
 
 pub struct Inject {
@@ -221,7 +222,11 @@ impl Net {
         // ---- attacker inside the network
         if let Some(mut inj) = self.injector.take() {
             let mut out = Vec::new();
-            inj.on_datagram(&wire, &fate, &mut self.rng, &mut out);
+            let all_confirmed = {
+                let w = self.w.lock().unwrap();
+                w.ctx.confirmed >= 2 * w.ctx.params.clients.len()
+            };
+            inj.on_datagram(&wire, &fate, all_confirmed, &mut self.rng, &mut out);
             self.injector = Some(inj);
             for i in out {
                 self.inject(buffers, i, now);
